@@ -177,88 +177,135 @@ theorem cons_filterstats_c17_indexBulk_eq_c04_updateStats (a : Collector.Active)
 
 /-! ## `SetMultiple` and the composed bulk step -/
 
-/-- C17's `SetMultiple` follows the source (`!ok || savedPos == pos[i]`); C14's works on IDs only ("plain documents").
-They return the same `appended` when no incoming position equals a stored one for the same ID and the positions of
-the bulk are pairwise different - i.e. no nested metas and a fresh doc block, C14's declared scope. -/
-theorem cons_filterstats_c17_setMultiple_eq_c14 (ids : List Collector.ID) :
-    ∀ (ps : List Collector.DocPos) (dp : Collector.DocsPositions) (stored : List (Nat × Nat)),
-      ps.length = ids.length → ps.Nodup →
-      (∀ id, (dp.lookup id).isSome ↔ id ∈ stored) → (∀ id q, dp.lookup id = some q → q ∉ ps) →
-      (Collector.setMultiple dp ids ps).2 = FracInfo.setMultiple stored ids := by
+/-- C17 positions are pairs `(block, offset)`, C14's are naturals (`seq.DocPos` packed): any injective `enc` converts.
+C17 `(ids, positions)` -> C14 bulk -/
+def filterstatsEntries (enc : Collector.DocPos → Nat) (ids : List Collector.ID) (ps : List Collector.DocPos) :
+    List FracInfo.Entry :=
+  (ids.zip ps).map fun e => (e.1, enc e.2)
+
+/-- C17 `DocsPositions` -> C14 positions map -/
+def filterstatsDp (enc : Collector.DocPos → Nat) (dp : Collector.DocsPositions) : List FracInfo.Entry :=
+  dp.map fun e => (e.1, enc e.2)
+
+theorem filterstats_lookup_map (enc : Collector.DocPos → Nat) (dp : Collector.DocsPositions) (id : Collector.ID) :
+    (filterstatsDp enc dp).lookup id = (dp.lookup id).map enc := by
+  unfold filterstatsDp
+  induction dp with
+  | nil => rfl
+  | cons e t ih =>
+    obtain ⟨k, v⟩ := e
+    simp only [List.map_cons, List.lookup_cons]
+    cases id == k <;> simp [ih]
+
+/-- **Go `DocsPositions.SetMultiple`: C14 `SV.FracInfo.setMultiple` = C17 `SV.Collector.setMultiple`** (both follow
+`!ok || savedPos == pos[i]` since C14's round-6 repair), new map and `appended` slice alike.  Representation change:
+`filterstatsEntries` / `filterstatsDp` with any injective position encoding.  All inputs (nested metas, retried
+documents, lists of different length - both stop at the shorter). -/
+theorem cons_filterstats_c17_setMultiple_eq_c14 (enc : Collector.DocPos → Nat) (henc : ∀ p q, enc p = enc q → p = q)
+    (ids : List Collector.ID) : ∀ (ps : List Collector.DocPos) (dp : Collector.DocsPositions),
+      FracInfo.setMultiple (filterstatsDp enc dp) (filterstatsEntries enc ids ps)
+        = (filterstatsDp enc (Collector.setMultiple dp ids ps).1, (Collector.setMultiple dp ids ps).2) := by
   induction ids with
-  | nil => intro ps dp stored _ _ _ _; cases ps <;> rfl
+  | nil => intro ps dp; cases ps <;> rfl
   | cons id rest ih =>
-    intro ps dp stored hlen hnd hdom hfresh
+    intro ps dp
     cases ps with
-    | nil => cases hlen
+    | nil => rfl
     | cons p ps' =>
-      simp only [List.length_cons, Nat.add_right_cancel_iff] at hlen
-      rw [List.nodup_cons] at hnd
-      unfold Collector.setMultiple FracInfo.setMultiple
+      have hcons : filterstatsEntries enc (id :: rest) (p :: ps') = (id, enc p) :: filterstatsEntries enc rest ps' := rfl
+      rw [hcons]
+      unfold FracInfo.setMultiple Collector.setMultiple
+      rw [filterstats_lookup_map]
       cases hl : dp.lookup id with
       | none =>
-        have hns : id ∉ stored := by
-          intro h; have := (hdom id).mpr h; rw [hl] at this; cases this
-        simp only [hns, if_false]
-        congr 1
-        apply ih ps' _ _ hlen hnd.2
-        · intro x
-          simp only [List.lookup_cons, List.mem_cons]
-          by_cases hx : x = id
-          · subst hx; simp
-          · have : (x == id) = false := by simpa using hx
-            simp only [this, hx, false_or]; exact hdom x
-        · intro x q hq
-          simp only [List.lookup_cons] at hq
-          by_cases hx : x = id
-          · subst hx
-            simp only [beq_self_eq_true, Option.some.injEq] at hq
-            subst hq; exact hnd.1
-          · have : (x == id) = false := by simpa using hx
-            simp only [this] at hq
-            exact fun hm => hfresh x q hq (List.mem_cons_of_mem _ hm)
+        simp only [Option.map_none]
+        have := ih ps' ((id, p) :: dp)
+        have hdp : filterstatsDp enc ((id, p) :: dp) = (id, enc p) :: filterstatsDp enc dp := rfl
+        rw [hdp] at this
+        rw [this]
       | some q =>
-        have hs : id ∈ stored := (hdom id).mp (by rw [hl]; rfl)
-        have hqp : q ≠ p := fun h => hfresh id q hl (by rw [h]; exact List.mem_cons_self)
-        simp only [hs, if_true, hqp, if_false]
-        exact ih ps' dp stored hlen hnd.2 hdom
-          (fun x q' hq' hm => hfresh x q' hq' (List.mem_cons_of_mem _ hm))
+        simp only [Option.map_some]
+        by_cases hq : q = p
+        · subst hq
+          simp only [if_true]
+          rw [ih ps' dp]
+        · have hq' : ¬ enc q = enc p := fun h => hq (henc _ _ h)
+          simp only [hq, hq', if_false]
+          exact ih ps' dp
 
-example : let ps : List Collector.DocPos := [(1, 0), (1, 9)]
-    ps.length = 2 ∧ ps.Nodup ∧ (∀ id, (([] : Collector.DocsPositions).lookup id).isSome ↔ id ∈ ([] : List (Nat × Nat))) := by
-  refine ⟨rfl, by decide, fun id => by simp⟩
-
-/-- **Disagreement outside that scope (nested metas).**  A nested meta carries its parent's ID and position
-(`Positions may be equal in case of nested index`): Go appends the ID again, C17 does, C14's ID-only `setMultiple` does
-not.  Go side: C17 (frac/active_docs_positions.go: `!ok || savedPos == pos[i]`).  Reachable for bulks with nested
-documents; effect on C14's subject: none on `From/To` (a repeated ID changes neither min nor max - next theorem), only
-`DocsTotal` counts differ (C14 adds 1, Go adds 2). -/
-theorem cons_filterstats_c17_setMultiple_ne_c14_nested_witness :
+/-- the nested case (a meta with its parent's ID and position): BOTH models now append the ID again, as Go does
+(before the repair C14's ID-only `setMultiple` returned `[(5, 1)]` - wave 3's former `..._ne_c14_nested_witness`) -/
+theorem cons_filterstats_setMultiple_nested_agree_witness :
     (Collector.setMultiple [] [(5, 1), (5, 1)] [(0, 0), (0, 0)]).2 = [(5, 1), (5, 1)] ∧
-      FracInfo.setMultiple [] [(5, 1), (5, 1)] = [(5, 1)] := by decide
+      (FracInfo.setMultiple [] [((5, 1), 0), ((5, 1), 0)]).2 = [(5, 1), (5, 1)] ∧
+      (FracInfo.setMultiple [] [((5, 1), 0), ((5, 1), 7)]).2 = [(5, 1)] := by decide
 
-theorem cons_filterstats_nested_same_stats_witness :
-    FracInfo.collectorStats [(5, 1), (5, 1)] = FracInfo.collectorStats [(5, 1)] := by decide
+theorem filterstats_entries_fst (enc : Collector.DocPos → Nat) (ids : List Collector.ID) (ps : List Collector.DocPos)
+    (h : ps.length = ids.length) : (filterstatsEntries enc ids ps).map Prod.fst = ids := by
+  unfold filterstatsEntries
+  rw [List.map_map]
+  have : (Prod.fst ∘ fun e : Collector.ID × Collector.DocPos => (e.1, enc e.2)) = Prod.fst := rfl
+  rw [this]
+  exact List.map_fst_zip (by omega)
 
 /-- **One bulk through the index worker: C14 `SV.FracInfo.ingestBulk` = C04 `updateStats ∘ filterStats` = C17
-`SV.Collector.indexBulk`** on the borders `(From, To)`, whenever the two `SetMultiple`s returned the same `appended`
-(previous theorems give when) and the fraction's borders agree beforehand.  All bulks. -/
-theorem cons_filterstats_ingestBulk_eq_indexBulk (st : FracInfo.Info × List (Nat × Nat)) (a : Collector.Active)
-    (ms : List Collector.Meta) (hb : (st.1.ifrom, st.1.ito) = (a.from_, a.to))
-    (happ : (Collector.setMultiple a.dp (ms.map (·.id)) (Collector.collect a.blocks.length ms).positions).2
-      = FracInfo.setMultiple st.2 (ms.map (·.id))) :
-    (((FracInfo.ingestBulk st (ms.map (·.id))).1.ifrom, (FracInfo.ingestBulk st (ms.map (·.id))).1.ito)
+`SV.Collector.indexBulk`**: borders `(From, To)` and positions map, for every bulk, whenever the two states agree
+beforehand.  No hypothesis on `SetMultiple` any more (previous theorem). -/
+theorem cons_filterstats_ingestBulk_eq_indexBulk (enc : Collector.DocPos → Nat) (henc : ∀ p q, enc p = enc q → p = q)
+    (st : FracInfo.AState) (a : Collector.Active) (ms : List Collector.Meta)
+    (hb : (st.info.ifrom, st.info.ito) = (a.from_, a.to)) (hp : st.pos = filterstatsDp enc a.dp) :
+    (((FracInfo.ingestBulk st
+          (filterstatsEntries enc (ms.map (·.id)) (Collector.collect a.blocks.length ms).positions)).info.ifrom,
+        (FracInfo.ingestBulk st
+          (filterstatsEntries enc (ms.map (·.id)) (Collector.collect a.blocks.length ms).positions)).info.ito)
         = ((Collector.indexBulk a ms).from_, (Collector.indexBulk a ms).to)) ∧
-      (((FracInfo.ingestBulk st (ms.map (·.id))).1.ifrom, (FracInfo.ingestBulk st (ms.map (·.id))).1.ito)
-        = Fetch.updateStats (st.1.ifrom, st.1.ito)
+      (FracInfo.ingestBulk st
+          (filterstatsEntries enc (ms.map (·.id)) (Collector.collect a.blocks.length ms).positions)).pos
+        = filterstatsDp enc (Collector.indexBulk a ms).dp ∧
+      (((FracInfo.ingestBulk st
+          (filterstatsEntries enc (ms.map (·.id)) (Collector.collect a.blocks.length ms).positions)).info.ifrom,
+        (FracInfo.ingestBulk st
+          (filterstatsEntries enc (ms.map (·.id)) (Collector.collect a.blocks.length ms).positions)).info.ito)
+        = Fetch.updateStats (st.info.ifrom, st.info.ito)
             (Fetch.filterStats ((ms.map (·.id)).map filterstatsFetchID)
-              ((FracInfo.setMultiple st.2 (ms.map (·.id))).map filterstatsFetchID))) := by
+              ((Collector.setMultiple a.dp (ms.map (·.id)) (Collector.collect a.blocks.length ms).positions).2.map
+                filterstatsFetchID))) := by
+  have hspec := Collector.collect_spec a.blocks.length ms
+  have hids := hspec.2.2.1
+  have hlen : (Collector.collect a.blocks.length ms).positions.length = (ms.map (·.id)).length := by
+    rw [← hids]; exact hspec.1.1.1
+  have hsm := cons_filterstats_c17_setMultiple_eq_c14 enc henc (ms.map (·.id))
+    (Collector.collect a.blocks.length ms).positions a.dp
+  have hfst := filterstats_entries_fst enc (ms.map (·.id)) _ hlen
   have hd := cons_filterstats_c17_dedupCollector_eq_c14_survivors a ms
-  rw [happ] at hd
-  constructor
+  have hdp : (Collector.indexBulk a ms).dp
+      = (Collector.setMultiple a.dp (ms.map (·.id)) (Collector.collect a.blocks.length ms).positions).1 := by
+    show (Collector.dedupCollector a ms).2 = _
+    unfold Collector.dedupCollector
+    simp only [hids]
+  have hsub : (Collector.setMultiple a.dp (ms.map (·.id)) (Collector.collect a.blocks.length ms).positions).2.Sublist
+      (ms.map (·.id)) := by
+    have := FracInfo.setMultiple_sublist (filterstatsDp enc a.dp)
+      (filterstatsEntries enc (ms.map (·.id)) (Collector.collect a.blocks.length ms).positions)
+    rw [hsm, hfst] at this
+    exact this
+  unfold FracInfo.ingestBulk
+  simp only [hp, hsm, hfst]
+  refine ⟨?_, hdp.symm ▸ rfl, ?_⟩
   · rw [cons_filterstats_c17_indexBulk_eq_c04_updateStats, hd.2, hd.1, ← hb]
     rfl
-  · rw [cons_filterstats_c04_filterStats_eq_c14_survivors _ _ (FracInfo.setMultiple_sublist _ _)]
+  · rw [cons_filterstats_c04_filterStats_eq_c14_survivors _ _ hsub]
     rfl
+
+/-- **Remaining difference: the IDs handed to `AppendIDs`.**  Go appends `collector.IDs` AFTER `Filter`, i.e. the
+survivors (every entry of the bulk whose ID is in `appended`); C17's `indexBulk` does (`a.ids ++ c.ids`), C14's ghost
+field `AState.ids` appends `appended` itself.  They differ when one bulk holds the same ID twice with different
+positions (second occurrence dropped by `SetMultiple`, but kept by `Filter`): Go/C17 add the ID twice, C14 once.
+Go side: C17 (frac/active_indexer.go: `Filter(appendedIDs)` then `AppendIDs(collector.IDs)`).  Effect on C14's
+theorems: none (the extra entry repeats a MID already covered; `DocsTotal` is `len(appended)` in both). -/
+theorem cons_filterstats_c14_ids_ne_c17_survivors_witness :
+    (FracInfo.ingestBulk (FracInfo.newActive 0) [((5, 1), 0), ((5, 1), 7)]).ids = [(5, 1)] ∧
+      FracInfo.survivors [(5, 1), (5, 1)] (FracInfo.setMultiple [] [((5, 1), 0), ((5, 1), 7)]).2 = [(5, 1), (5, 1)] := by
+  decide
 
 end SV.Consistency
